@@ -5,11 +5,57 @@ SPEC = dict(
     driver="C33",
     harness="c33.cpp",
     theorems=[
+        # 1 bounds (repaired code) and the defect D15 of the original code
+        "SymVerif.C33.extend_correct",
+        "SymVerif.C33.extend_no_oob",
+        "SymVerif.C33.orig_extend_oob",
+        "SymVerif.C33.orig_extend_oob_witness",
+        "SymVerif.C33.orig_segLoop_oob_small",
+        # 2 invariant
+        "SymVerif.C33.inv_initial",
+        "SymVerif.C33.step_preserves_inv",
+        # 3 core sieve lemma
+        "SymVerif.C33.sieve_unmarked_iff_prime",
+        "SymVerif.C33.sieve_segment_correct",
+        # 4, 5 the two API entry points
+        "SymVerif.C33.generatePrimes_correct",
+        "SymVerif.C33.nextPrime_correct",
+        # 6 histories
+        "SymVerif.C33.history_correct",
+        "SymVerif.C33.history_no_ub",
+        "SymVerif.C33.history_gen_outputs",
+        "SymVerif.C33.history_iter_outputs",
+        "SymVerif.C33.iterRun_unlimited",
+        "SymVerif.C33.iterRun_limited",
+        "SymVerif.C33.history_no_error",
+        "SymVerif.C33.history_complete",
     ],
     rule="call histories over generate_primes/clear/set_clear/set_sieve_size/iterators on the process-global sieve; "
          "distinct = distinct history lines; non-trivial = every history (each has >= 1 sieve call); tags: boundary "
-         "(limits within +-3 of k*2*segment), hist-smallseg (1-3 KiB sieve), hist-defaultseg",
-    not_covered=["HAVE_SYMENGINE_PRIMESIEVE branch (library absent)", "limits >= 2^31 (unsigned wrap-around)",
-                 "set_sieve_size(0) (the segment loop does not advance)"],
-    assumptions=["std::floor(std::sqrt(double(limit))) == Nat.sqrt limit for limit < 2^32"],
+         "(limits within +-3 of 30 + k*2*segment, fresh cache), boundary-warm (same around (cached prime)+1 + k*2*segment), "
+         "hist-smallseg (1-3 KiB sieve), hist-defaultseg, stale-iter (iterator standing beyond size() after a clear), "
+         "iter-limit / iter-limit-cached (limit below the cached range, limit+1 prime), iter-recreate",
+    not_covered=["HAVE_SYMENGINE_PRIMESIEVE branch (library absent)",
+                 "limits >= 2^31 (unsigned wrap-around of start+2*segment, p*p): the model answers E:range",
+                 "set_sieve_size(0) (the segment loop does not advance; modelled as E:fuel, excluded by OpsOk)",
+                 "set_sieve_size(k) with k*8192 >= 2^32 (unsigned wrap of _sieve_size)",
+                 "concurrent use of the static cache from several threads",
+                 "std::vector::operator[] beyond size() (stale read in next_prime) is modelled as a read of the retained "
+                 "storage - true for libstdc++/libc++ without _GLIBCXX_ASSERTIONS; formally undefined behaviour"],
+    assumptions=["std::floor(std::sqrt(double(limit))) == Nat.sqrt limit for limit < 2^32",
+                 "std::vector::erase/push_back keep the stale tail of the storage intact until it is overwritten "
+                 "(no reallocation before size()==capacity())"],
+    level_text="Machine-checked proof (Lean 4 + Mathlib) over an executable model of prime_sieve.cpp, for ALL call "
+               "histories with limits < 2^31 and positive sieve sizes: no out-of-bounds access, generate_primes returns "
+               "exactly (List.range (limit+1)).filter Nat.Prime, iterators return consecutive primes (Nat.nth Nat.Prime) "
+               "with the end marker limit+1 only when the next prime exceeds the limit. The model is tied to the C++ by "
+               "differential execution of generated histories on the real library plus an independent oracle.",
+    level_note="The only residual outcome the history theorem allows besides a correct result is Err.range at an "
+               "iterNext whose extension target 2*p or limit is >= 2^31 (never produced on generated inputs; the model "
+               "would print E:range). history_no_error removes it for iterators with a limit in (0,2^31).",
+    technique="invariant 'storage (incl. stale tail) = prefix of the prime enumeration' + loop specifications by "
+              "induction on fuel (markSlice/markLoop/collectLoop/segLoop/extendWith), Nat.count/Nat.nth from Mathlib, "
+              "Nat.minFac_sq_le_self for the sieve lemma, Bertrand's postulate for the iterator's doubling step; "
+              "general refutation theorem for the pre-fix segment end (D15)",
+    partial=[],
 )
